@@ -23,7 +23,101 @@ pub fn families() -> Vec<Family> {
         )
         .runs(100_000, 6_000_000)
         .deadlock(OnDeadlock::HarnessError),
+        Family::new(
+            "c18_sink_reentry",
+            "C18",
+            "a broadcast over peers whose sinks call back into the registry (look a key up, remove their own dead peer) or stall for a while, next to a thread that keeps using the registry: one result per peer present at the call, one notification each, nobody deadlocks and the bystander is not held up by the stalled sink",
+            c18_sink_reentry,
+        )
+        .runs(40_000, 2_400_000)
+        .deadlock(OnDeadlock::Violation),
     ]
+}
+
+/// A sink that uses the registry it is registered in while it is being sent to.
+struct ReentrantSink {
+    id: u64,
+    /// 0 plain, 1 looks things up, 2 removes its own peer and reports Disconnected, 3 stalls
+    kind: u8,
+    reg: PeerRegistry,
+    got: Arc<std::sync::Mutex<Vec<(u64, String)>>>,
+    stall_ns: u64,
+    stalled_until: Arc<std::sync::atomic::AtomicU64>,
+}
+impl PeerSink for ReentrantSink {
+    fn send_notify(&self, method: &str, _body: NotifyBody) -> Result<(), PeerSendError> {
+        self.got.lock().unwrap().push((self.id, method.to_string()));
+        match self.kind {
+            1 => {
+                let _ = self.reg.get_by("k");
+                let _ = self.reg.len();
+                let _ = self.reg.aliases_for(PeerId(self.id));
+                Ok(())
+            }
+            2 => {
+                self.reg.remove(PeerId(self.id));
+                Err(PeerSendError::Disconnected)
+            }
+            3 => {
+                thread::sleep(std::time::Duration::from_nanos(self.stall_ns));
+                self.stalled_until.store(simkernel::now_ns(), std::sync::atomic::Ordering::SeqCst);
+                Ok(())
+            }
+            _ => Ok(()),
+        }
+    }
+    fn is_connected(&self) -> bool {
+        true
+    }
+}
+
+fn c18_sink_reentry(case: &Case) {
+    let reg = PeerRegistry::new();
+    let got: Arc<std::sync::Mutex<Vec<(u64, String)>>> = Default::default();
+    let stalled_until = Arc::new(std::sync::atomic::AtomicU64::new(0));
+    let n = range(1, 4) as u64;
+    let kinds: Vec<u8> = (0..n).map(|_| pick(&[0u8, 1, 1, 2, 3])).collect();
+    let stall_ns = pick(&[1_000_000u64, 50_000_000]);
+    for (i, k) in kinds.iter().enumerate() {
+        let id = i as u64 + 1;
+        reg.insert(PeerHandle::new(PeerId(id), Arc::new(ReentrantSink { id, kind: *k, reg: reg.clone(), got: got.clone(), stall_ns, stalled_until: stalled_until.clone() })));
+    }
+    reg.alias(PeerId(1), "k");
+    case.sample(json!({"sinks": kinds.iter().map(|k| ["plain", "looks-up", "removes-itself", "stalls"][*k as usize]).collect::<Vec<_>>(), "stall_ns": stall_ns}));
+    // a bystander keeps using the registry while the broadcast is under way
+    let r2 = reg.clone();
+    let bystander = thread::spawn(move || {
+        thread::sleep(std::time::Duration::from_nanos(1_000));
+        let _ = r2.get_by("k");
+        r2.insert(PeerHandle::new(PeerId(99), Arc::new(ReentrantSink { id: 99, kind: 0, reg: r2.clone(), got: Default::default(), stall_ns: 0, stalled_until: Default::default() })));
+        r2.alias(PeerId(99), "late");
+        let _ = r2.aliases_for(PeerId(99));
+        simkernel::now_ns()
+    });
+    let res = reg.broadcast_notify_utf8("/ev", "hello");
+    let by_done = bystander.join().unwrap_or(u64::MAX);
+    let keys: std::collections::BTreeSet<u64> = res.keys().map(|p| p.0).collect();
+    let want: std::collections::BTreeSet<u64> = (1..=n).collect();
+    // (peer 99 joins concurrently: it may or may not be addressed)
+    let core: std::collections::BTreeSet<u64> = keys.iter().copied().filter(|k| *k != 99).collect();
+    case.check(core == want, "broadcast-results", || format!("broadcast reported results for {keys:?}, peers present at the call {want:?}"));
+    let got = got.lock().unwrap().clone();
+    for id in 1..=n {
+        let c = got.iter().filter(|g| g.0 == id && g.1 == "/ev").count();
+        case.check(c == 1, "notification-count", || format!("peer {id} received the broadcast {c} times"));
+        let kind = kinds[id as usize - 1];
+        let r = res.get(&PeerId(id));
+        case.check(matches!((kind, r), (2, Some(Err(_))) | (0 | 1 | 3, Some(Ok(())))), "broadcast-results", || format!("peer {id} (sink kind {kind}) was reported as {r:?}"));
+        if kind == 2 {
+            case.check(reg.get(PeerId(id)).is_none(), "removed-peer-present", || format!("peer {id} removed itself from inside its sink but is still registered"));
+        }
+    }
+    let stalled = stalled_until.load(std::sync::atomic::Ordering::SeqCst);
+    if kinds.contains(&3) && stall_ns >= 50_000_000 && stalled > 0 {
+        case.probe("bystander_ran_next_to_a_stalled_sink");
+        case.check(by_done < stalled, "registry-frozen-by-a-slow-peer", || format!("a thread using the registry next to the broadcast finished at t={by_done}ns, only after the stalled sink let go at t={stalled}ns"));
+    }
+    case.nontrivial();
 }
 
 #[derive(Clone, Debug, PartialEq)]
